@@ -20,7 +20,7 @@ def band_width(k, a0, v, h, eps):
     return BAND_FACTOR * eps * (k + 2) * max(abs(a0), abs(v), abs(h))
 
 
-def classify(v, edges, dtype='float64'):
+def classify(v, edges, dtype='float64', h=None):
     """Exact class of value v w.r.t. increasing, equally spaced edges (list of python floats).
 
     Returns pos = k*S + c (Axis.tla).  k is capped at len(edges) (everything at or beyond the virtual edge that
@@ -29,7 +29,10 @@ def classify(v, edges, dtype='float64'):
     n = len(edges)
     eps = EPS[dtype]
     a0 = edges[0]
-    h = (Fraction(edges[1]) - Fraction(edges[0])) if n > 1 else Fraction(1)
+    if h is not None:
+        h = Fraction(h)
+    else:
+        h = (Fraction(edges[1]) - Fraction(edges[0])) if n > 1 else Fraction(1)
     fv = Fraction(v)
     if v < a0:
         k = -1
@@ -125,7 +128,7 @@ def ulps_above(x, j, dtype='float64'):
     return a
 
 
-def probes_for(edges, pos, dtype='float64'):
+def probes_for(edges, pos, dtype='float64', spacing=None):
     """gamma: concrete values realising Axis position pos on the given edges (list of floats)."""
     n = len(edges)
     k, c = pos // S, pos % S
@@ -133,6 +136,8 @@ def probes_for(edges, pos, dtype='float64'):
     a0 = edges[0]
     h = (edges[1] - edges[0]) if n > 1 else 1.0
     hF = (Fraction(edges[1]) - Fraction(edges[0])) if n > 1 else Fraction(1)
+    if spacing is not None:
+        h, hF = float(spacing), Fraction(spacing)
 
     def edge(i):
         if 0 <= i <= n - 1:
@@ -176,6 +181,6 @@ def probes_for(edges, pos, dtype='float64'):
     # keep only values that really classify as pos (gamma must not place a strict probe inside a band)
     good = []
     for x in out:
-        if math.isfinite(x) and classify(x, edges, dtype) == pos:
+        if math.isfinite(x) and classify(x, edges, dtype, h=spacing) == pos:
             good.append(x)
     return good
